@@ -38,6 +38,18 @@ def offsets_in(rec, pk, region):
     return [o for o in range(len(pk.raw)) if semantic_region(rec, pk, o) == region]
 
 
+
+def mac_pairs(R, rec):
+    """directed: two bytes of one packet's MAC / tag changed by the SAME mask (a comparison that accumulates the byte
+    differences with xor instead of or would see them cancel) - deterministic, does not rely on random MAC values"""
+    for i, p_ in enumerate(rec.pkts, 1):
+        offs = offsets_in(rec, p_, "mac")
+        if len(offs) >= 2:
+            for (o1, o2, mask) in ((offs[0], offs[-1], 0x01), (offs[0], offs[1], 0xFF), (offs[len(offs) // 2], offs[-1], 0x80)):
+                if o1 != o2:
+                    R.run(rec, [("Flip", i, "mac"), ("Flip", i, "mac")], [("FlipAt", i, (o1, mask)), ("FlipAt", i, (o2, mask))], "mac-pair")
+
+
 class Runner:
     def __init__(self, c):
         self.c = c
@@ -247,8 +259,18 @@ def run(c):
             R.run(rec, [("Replay", i, "")], [("Replay", i, "")], "packet-level")
             if i < len(rec.pkts):
                 R.run(rec, [("Swap", i, "")], [("Swap", i, "")], "packet-level")
+        mac_pairs(R, rec)
         # the unedited stream must be delivered completely (the edits are what makes the receiver stop)
         R.run(rec, [], [], "control")
+
+    # ---- fixed stratum: the directed MAC-pair edits on MAC-based suites of both verification modes (whatever classes the seed chose above)
+    per_mode = {}
+    for su in sorted(P.suites()):
+        if P.mode_of(su) in ("classic", "etm") and len(per_mode.setdefault(P.mode_of(su), [])) < (2 if c.quick else 6):
+            per_mode[P.mode_of(su)].append(su)
+    for mode in sorted(per_mode):
+        for su in per_mode[mode]:
+            mac_pairs(R, P.Recorded(su, rnd, "SSKS", False, lengths=[3, 40, 17]))
 
     # ---- TV 2: seeded multi-fault edits over all suites
     n_multi = 300 if c.quick else 3000
